@@ -20,11 +20,13 @@ def b(x): return "true" if x else "false"
 F04 = ["api", "ref_wire", "kit_srv", "kit_net", "c04"]
 SETUPS = {0: "empty table", 1: "attach f0", 2: "attach f0, walk f0->f1 (file or directory)", 3: "attach f0, walk f0->f1, open f1",
           4: "attach f0, walk f0->f1, open f1, auth a0", 5: "two connections, each with its own fid 0 (different users)"}
-def c04(nsym, setups):
+def c04(nsym, setups, slim=False):
     runs = []
     for s, auth in setups:
         what = ("one fully symbolic request" if nsym == 1 else "two consecutive fully symbolic requests (users given by matching name and number)")
-        runs.append({"harness": "vxH04Hist", "args": [str(s), b(auth), str(nsym)], "files": F04, "reach": ["done"], "timeout_s": 1500,
+        if slim:
+            what += "; the first of them ranges over the 7 types whose replies can change the table (Tauth, Tattach, Twalk, Topen, Tcreate, Tclunk, Tremove), f1 is a directory"
+        runs.append({"harness": "vxH04Hist", "args": [str(s), b(auth), str(nsym), b(slim)], "files": F04, "reach": ["done"], "timeout_s": 1500,
             "bounds": f"setup '{SETUPS[s]}', implementation {'with' if auth else 'without'} AuthOps; then {what}: any of the 13 T-types, "
                       "fid/newfid/afid each over {0,1,2,NOFID} (present, absent, NOFID), mode/perm/count/offset/msize full-width symbolic, 0..2 walk names, "
                       "implementation outcome success / error / partial walk of every shorter length, user by name+number / name only / unknown, dialect symbolic; "
@@ -33,7 +35,7 @@ def c04(nsym, setups):
 ALL = [(s, a) for s in (0, 1, 2, 3, 5) for a in (False, True)] + [(4, True)]
 w("C04", {
  "quick": c04(1, ALL),
- "thorough": c04(1, ALL) + c04(2, [(0, False), (2, False), (4, True), (5, True)]),
+ "thorough": c04(1, ALL) + c04(2, [(0, False), (5, True)]) + c04(2, [(2, False), (4, True)], slim=True),
  "outside": ["histories that need three or more arbitrary requests after the setup prefix to expose a fault", "more than 3 fid numbers, more than 2 connections, more than 2 users",
              "requests issued concurrently (C04 is sequential; concurrency is C03/C07/C08/C19)",
              "NOFID used as the fid a Tauth/Tattach/Twalk would bind: any refusal accepted, and a fid bound to the number NOFID is not expected in the FidDestroy log (the statement is silent)",
